@@ -3,6 +3,7 @@
     symbolic execution of that sequence for ALL requests and storage answers, so these corollaries hold for the
     current source tree (they are re-proved whenever the extracted sequence changes). *)
 From Saml Require Import Base.Bytes Idp.FactTypes Gen.Facts Idp.Callback Proofs.CallbackProofs Proofs.CallbackHistory.
+From Saml Require Import Idp.BuilderTypes Idp.Builder Idp.BuiltDoc.
 
 Notation run_cb form_ok form_id lookup_req app_entity userinfo cert_ok sign_ok :=
   (callback form_ok form_id lookup_req app_entity userinfo cert_ok sign_ok callback_seq loginResponse_seq).
@@ -90,9 +91,22 @@ Example C01_example :
       [b "s1"; b "s2"; b "s3"] = [[false]; [true]; [false]].
 Proof. vm_compute. reflexivity. Qed.
 
+(** what a failure reply contains, from the source of makeFailedResponse / makeResponse: the status and message given, the
+    request ID, the issuer, the destination only when a consumer URL is known -- and no assertion content: the builder
+    never sets the Assertion field (no subject, attribute or signature) *)
+Theorem C01_failed_response_content : forall reqid acs issuer audience reason message id1 rest issue until,
+  exists d, built_value "makeFailedResponse" (Some (response_rec reqid acs issuer audience)) [DStr reason; DStr message; DStr (b "f")] (id1 :: rest) issue until = Some (d, rest) /\
+    at_ d ["Id"%string] = Some (DStr id1) /\ at_ d ["InResponseTo"%string] = Some (DStr reqid) /\ at_ d ["IssueInstant"%string] = Some (DStr issue) /\
+    at_ d ["Status"; "StatusCode"; "Value"]%string = Some (DStr reason) /\ at_ d ["Status"; "StatusMessage"]%string = Some (DStr message) /\
+    at_ d ["Issuer"; "Text"]%string = Some (DStr issuer) /\
+    at_ d ["Destination"%string] = (if is_empty acs then None else Some (DStr acs)) /\
+    at_ d ["Assertion"%string] = None.
+Proof. exact failed_response_fields. Qed.
+
 Print Assumptions C01_success_only_if_done.
 Print Assumptions C01_one_reply.
 Print Assumptions C01_failure_statuses.
 Print Assumptions C01_no_userinfo_before_done.
 Print Assumptions C01_no_panic.
 Print Assumptions C01_histories.
+Print Assumptions C01_failed_response_content.
